@@ -48,6 +48,8 @@ type Cell struct {
 	T      types.Type
 	Old    bool // existed before the current run started (package state)
 	Shared int  // write-monitor tag (0 = private)
+	PoolRel bool // handed to a sync.Pool and not taken out again (pool.go)
+	PoolHot *poolUse // used by its former owner after Put, and since taken out of the pool by someone else
 	Name   string
 	Abs    *AbsArr   // element of an abstract slice
 	AbsIdx *sym.Term
@@ -274,6 +276,9 @@ func (in *Interp) load(c *Cell) Value {
 		return in.absLoad(c)
 	}
 	if c.Kids == nil {
+		if c.PoolRel || c.PoolHot != nil {
+			in.poolAccess(c, false)
+		}
 		if _, ok := under(c.T).(*types.Struct); ok {
 			return &Struct{}
 		}
@@ -324,6 +329,9 @@ func (in *Interp) store(c *Cell, v Value) {
 	}
 	if _, ok := v.(*Struct); ok && len(v.(*Struct).F) == 0 {
 		return
+	}
+	if c.PoolRel || c.PoolHot != nil {
+		in.poolAccess(c, true)
 	}
 	in.noteWrite(c)
 	c.V = v
